@@ -24,7 +24,7 @@ SlotsOf(fn, b, typ) ==
     [] fn = "ReadMetaLeaseSet" -> (LET r == RefMetaLeaseSet(b) IN IF r.ok THEN HeaderSlots(r.h, r.sigOff) ELSE NoSlots)
     [] fn = "ReadLeaseSet" -> (LET r == RefLeaseSet(b) IN IF r.ok THEN
           [NoSlots EXCEPT !.ok = TRUE, !.idoff = BlockLen - SigPubLen(r.d.st), !.idlen = SigPubLen(r.d.st), !.sigoff = r.sigOff, !.siglen = SigLen(r.d.st)] ELSE NoSlots)
-    [] fn = "ReadRouterInfo" -> (LET r == RefRouterInfo(b) IN IF r.ok THEN
+    [] fn = "ReadRouterInfo" -> (LET r == RefRouterInfo(b) IN IF "laidOut" \in DOMAIN r /\ r.laidOut THEN
           [NoSlots EXCEPT !.ok = TRUE, !.idoff = BlockLen - SigPubLen(r.id.st), !.idlen = SigPubLen(r.id.st), !.sigoff = r.sigOff, !.siglen = SigLen(r.id.st)] ELSE NoSlots)
     [] fn = "ReadEncryptedLeaseSet" -> (LET r == RefEncryptedLeaseSet(b) IN IF r.ok THEN
           LET ko == r.offOff + 6  kl == IF r.off THEN SigPubLen(r.tst) ELSE 0 IN
@@ -39,6 +39,19 @@ EventSlots(e) ==
   LET o == IF "offline" \in DOMAIN e THEN e.offline ELSE [keyoff |-> 0, keylen |-> 0, sigoff |-> 0, siglen |-> 0, from |-> 0, to |-> 0] IN
   [ok |-> TRUE, idoff |-> e.idkey.off, idlen |-> e.idkey.len, sigoff |-> e.sig.off, siglen |-> e.sig.len, off |-> "offline" \in DOMAIN e,
    keyoff |-> o.keyoff, keylen |-> o.keylen, osigoff |-> o.sigoff, osiglen |-> o.siglen, from |-> o.from, to |-> o.to]
+\* offsets of the count / length / flag / type fields of a structure (always among the flipped positions)
+StructuralOffsets(fn, b, typ) ==
+  CASE fn = "ReadRouterInfo" -> (LET r == RefRouterInfo(b) IN IF "laidOut" \in DOMAIN r THEN
+          << r.pubOff, r.pubOff + 7, r.pubOff + 8, r.peerOff, r.optOff, r.optOff + 1, BlockLen, BlockLen + 1, BlockLen + 2, BlockLen + 4, BlockLen + 6 >> ELSE << >>)
+    [] fn = "ReadLeaseSet2" -> (LET r == RefLeaseSet2(b) IN IF r.ok THEN
+          LET p == r.h.d.consumed IN << p, p + 3, p + 4, p + 5, p + 6, p + 7, r.optOff, r.optOff + 1, r.keyStarts[1] - 1, r.keyStarts[1], r.keyStarts[1] + 1,
+                                        r.keyStarts[1] + 2, r.keyStarts[1] + 3, r.leaseOff - 1, r.leaseOff, BlockLen, BlockLen + 2, BlockLen + 4, BlockLen + 6 >> ELSE << >>)
+    [] fn = "ReadMetaLeaseSet" -> (LET r == RefMetaLeaseSet(b) IN IF r.ok THEN
+          LET p == r.h.d.consumed IN << p, p + 4, p + 5, p + 6, p + 7, r.optOff, r.optOff + 1, r.entryStarts[1] - 1, r.entryStarts[1] + HashLen, r.entryStarts[1] + HashLen + 4,
+                                        r.entryStarts[1] + HashLen + 5, r.entryStarts[1] + HashLen + 6, r.entryStarts[1] + HashLen + 7, BlockLen + 4, BlockLen + 6 >> ELSE << >>)
+    [] fn = "ReadLeaseSet" -> (LET r == RefLeaseSet(b) IN IF r.ok THEN << r.encOff, r.spkOff, r.leaseOff - 1, r.leaseOff, r.leaseOff + HashLen, r.leaseOff + HashLen + 4, BlockLen + 2, BlockLen + 4 >> ELSE << >>)
+    [] fn = "ReadEncryptedLeaseSet" -> (LET r == RefEncryptedLeaseSet(b) IN IF r.ok THEN << 0, 1, r.hdrOff, r.hdrOff + 4, r.hdrOff + 5, r.hdrOff + 6, r.hdrOff + 7, r.lenOff, r.lenOff + 1, r.lenOff + 2 >> ELSE << >>)
+    [] OTHER -> << 0, 3, 4, 5 >>
 StoreTypePrefix(fn) == CASE fn = "ReadLeaseSet2" -> << 3 >> [] fn = "ReadMetaLeaseSet" -> << 7 >> [] fn = "ReadEncryptedLeaseSet" -> << 5 >> [] OTHER -> << >>
 
 JSignedProbe(e) ==
